@@ -94,10 +94,14 @@ def spec_strategy(draw, families=("LAN", "ROUTED", "DMZ"), allow_off=True, max_h
         },
         "acl_deny": draw(st.booleans()),
         "amap_order": draw(st.sampled_from([0, 0, 1, 7, 12345])),
+        # which network device (index into routers+firewalls+switches), if any, is DECLARED operating_state OFF
+        "infra_off": draw(st.sampled_from([None, None, None, None, None, None, 0, 1, 2])),
         "defaults": draw(st.sampled_from([None, None, {"folder_scan_duration": 1, "folder_restore_duration": 1,
                                                         "node_scan_duration": 2, "service_fix_duration": 1,
                                                         "service_restart_duration": 1}])),
     }
+    if not allow_off:
+        spec["infra_off"] = None
     return spec
 
 
@@ -208,6 +212,10 @@ def build(spec: Dict) -> Tuple[Dict, Dict]:
             nodes.append({"type": "switch", "hostname": f"sw{z}", "num_ports": 8, "start_up_duration": nd,
                           "shut_down_duration": nd})
             link("fw", fwport[z], f"sw{z}", 8)
+
+    if spec.get("infra_off") is not None:
+        devs = [n for n in nodes if n["type"] in ("router", "firewall", "switch")]
+        devs[spec["infra_off"] % len(devs)]["operating_state"] = "OFF"
 
     # hosts
     for z, hosts in enumerate(zones):
@@ -412,6 +420,10 @@ def build_actions(hosts, routers, firewalls, switches, spec) -> List[Dict]:
     add("node-application-install", "app", node_name=h0, application_name="ransomware-script")
     for v in ("execute", "close", "scan"):
         add(f"node-application-{v}", "app", node_name=h0, application_name="ransomware-script")
+    # power actions on network devices (appended last so that the indices of the entries above stay what they were)
+    for dev in list(routers) + list(firewalls) + list(switches)[:1]:
+        for a in ("node-startup", "node-shutdown"):
+            add(a, "power", node_name=dev)
     return A
 
 
